@@ -75,8 +75,8 @@ def template(position, kind, lang, point):
         return None
     flang, lang = lang, lang.partition("_")[0]
     loop = point == "loop2"
-    if loop and position in ("action", "items", "input", "vars", "output"):
-        return None
+    if loop and position in ("action", "items", "input", "vars", "output", "publish_multi"):
+        return None  # (publish_multi: the fail command of the first pass keeps the loop alive as clean-up work)
     if kind == "undefined" and (wf_level or loop):
         return None
     if loop and kind != "div_zero":
@@ -440,7 +440,7 @@ def jobs(tier, seed):
         js = [j for i, j in enumerate(js) if i % 3 == seed % 3] + [j for i, j in enumerate(js) if i % 3 != seed % 3][:2]
         combos = [(p, k, l, pt) for p in POSITIONS for k in KINDS for l in LANGS for pt in POINTS]
         always = [i for i, c in enumerate(combos) if c[1] == "string_value" or c[3] == "canceling" or c[0].startswith("retry_")
-                  or ("_" in c[2] and c[3] == "mid")]
+                  or ("_" in c[2] and c[3] == "mid") or (c[0] == "publish_multi" and c[3] in ("mid", "join"))]
         js += [dict(fn="templates", lo=i, hi=i + 1, name="templates") for i in always]
     P = dict(p_items=0.2, p_retry=0.25, p_ainput=0.5, p_pub=0.8, p_expr_count=0.5, p_expr_conc=0.5, p_delay=0.1, nmax=6)
     js += batches("failpoints", scale(tier, 60, 1500), scale(tier, 4, 30), gen="mix", p_loop=0.25, P=P, gseed=seed,
